@@ -5,6 +5,12 @@ data; validated against that reference data inside TLC (MC_C12ref) before it is 
 TLC enumerates queries segment by segment (MC_C12, modes seg / slice / filter) and checks the model-internal
 obligations (paths resolve, normalized-path round trip, option laws, RFC 9535 slice closed form, replace laws) while
 emitting the cases.
+Functions family (MC_C12fn): the built-in functions (abs avg ceil contains ends_with floor keys length max min prod
+starts_with sum to_number tokenize), unary minus and + - * / % with their operator levels, written from
+doc/ref/jsonpath/functions/*.md, grammar.md and the functions / filters reference data (validated in MC_C12ref too):
+every function x a typed value alphabet, arithmetic over 2-3 operands with every operator pair, function calls as
+filter operands and as whole expressions.  Cases that fall into a suspected-defect class of jsoncons carry a tag
+("dev"); their prediction stays the specification's and a mismatch is matched against known_findings.jsonl.
 Binding: G - every case is replayed through json_query (values, paths, callback), make_expression + evaluate /
 select_paths, the result options, json_location::parse + get for every returned path, json_replace (value and
 callback forms) and jsonpath_expression::update, for json and ojson and every notation the un-parser produced."""
@@ -12,8 +18,10 @@ import json, os, hashlib
 import vf
 
 PROP = 'C12'
-CFG = {'quick': ['gen/MC_C12seg_q.cfg', 'gen/MC_C12slice_q.cfg', 'gen/MC_C12filter_q.cfg'],
-       'thorough': ['gen/MC_C12seg_t.cfg', 'gen/MC_C12slice_t.cfg', 'gen/MC_C12filter_t.cfg']}
+CFG = {'quick': ['gen/MC_C12seg_q.cfg', 'gen/MC_C12slice_q.cfg', 'gen/MC_C12filter_q.cfg', 'gen/MC_C12fn_q.cfg'],
+       'thorough': ['gen/MC_C12seg_t.cfg', 'gen/MC_C12slice_t.cfg', 'gen/MC_C12filter_t.cfg', 'gen/MC_C12fn_t.cfg']}
+# the functions family (built-in functions, unary minus, + - * / %, function calls as whole expressions) has a generator of its own
+FN_MODULE = 'gen/MC_C12fn'
 REF = os.path.join(vf.SPEC, 'validation', 'C12_ref.ndjson')
 
 # Root causes of jsoncons defects found by this check (notes/C12.md, section SUSPECTED DEFECTS).  All four were
@@ -39,10 +47,14 @@ def included():
     return inc
 
 
+def is_fn(cfg):
+    return os.path.basename(cfg).startswith('MC_C12fn')
+
+
 def cfg_for(cfg, inc):
     """the registered cfg, or a derived copy (under .work) with the Incl* constants of the enabled flags set to TRUE"""
     on = [TLC_FLAG[k] for k in sorted(TLC_FLAG) if inc[k]]
-    if not on:
+    if not on or is_fn(cfg):
         return cfg
     txt = open(os.path.join(vf.SPEC, cfg)).read()
     for const in on:
@@ -72,7 +84,12 @@ def sig(r):
     c = r.get('case') or {}
     if not isinstance(c, dict):
         return {'case': str(c)[:200]}
-    s = {'mode': c.get('m'), 'doc': json.dumps(c.get('d')), 'query': text((c.get('ex') or [[]])[0])}
+    dev = ','.join(c.get('dev') or [])
+    if dev:
+        # a case the functions-family generator put into suspected-defect classes of jsoncons (notes/C12.md): coarse signature
+        # {dev, what}, matched against known_findings.jsonl (hundreds of expressions share one root cause)
+        return {'mode': c.get('m'), 'dev': dev, 'what': 'exception' if r.get('what') == 'exception' else ('crash' if r.get('crash') else 'result')}
+    s = {'mode': c.get('m'), 'dev': '', 'doc': json.dumps(c.get('d')), 'query': text((c.get('ex') or [[]])[0])}
     for k in ('flavour', 'what', 'expr'):
         if k in r:
             s[k] = r[k]
@@ -80,7 +97,7 @@ def sig(r):
 
 
 def gens(tier, inc):
-    return [vf.tlc_gen('gen/MC_C12', cfg_for(c, inc), timeout=3000) for c in CFG[tier]]
+    return [vf.tlc_gen(FN_MODULE if is_fn(c) else 'gen/MC_C12', cfg_for(c, inc), timeout=3000) for c in CFG[tier]]
 
 
 def validate_spec(rep=None):
@@ -132,9 +149,34 @@ def run(tier):
                    'FilterDocs; every case in up to 4 notations (dot / bracket, single / double quotes, with / without white space and filter '
                    'parentheses) x json and ojson x plain / nodups / sort / nodups|sort x values / paths / callback / compiled / select_paths / '
                    'json_replace / update; one case = one distinct (document, query)')
+    cov['rule'] += ('; (fn) functions family: (un) each of abs avg ceil floor keys length max min prod sum to_number x every value of a typed '
+                    'alphabet (integers incl. negative and zero, halves, strings incl. empty / non-ASCII / number texts, arrays: empty, one element, '
+                    'numbers, strings, mixed, nested, objects, null, booleans, a missing member) as F(@) compared with 8 literals and with the value '
+                    'the specification computes (==, !=, <, >=), as a test, negated, on literals and nested in abs / ceil / floor; (bin) contains, '
+                    'starts_with, ends_with, tokenize x (source, search) pairs with the search string absent / at the start / in the middle / at the '
+                    'end, tokenize through length and indices; (ar) a op b, (a op1 b) op2 c and a op1 (b op2 c) for every operator pair of + - * / % '
+                    'over members, literals and function calls, unary minus in every position, division and modulus by zero, non-number operands, '
+                    'each pinned by == to the value computed for one element, plus < >= and arithmetic below comparison / ! / && / ||; (mix) the '
+                    'filters the reference pages show (avg / max / sum of $-paths, !contains(keys(@),..), tokenize(..)[i], nested filters in '
+                    'arguments) after a prefix and before a suffix; (top) a function call as the whole expression, optionally followed by [*] / [i]: '
+                    'values only (json_query, callback, compiled evaluate; numbers by numeric value); every case in 4 notations (tight / spaced '
+                    'operators, minimal / full parentheses)')
     cov['bounds'] = {c: open(os.path.join(vf.SPEC, c)).read().split('CONSTANTS')[1].split() for c in CFG[tier]}
     cov['included_known_root_causes'] = sorted(k for k, v in inc.items() if v)
-    cov['samples'] = vf.sample_lines(g[0][0], 1) + vf.sample_lines(g[2][0], 1) + vf.sample_lines(g[1][0], 1)
+    cov['samples'] = vf.sample_lines(g[0][0], 1) + vf.sample_lines(g[2][0], 1) + vf.sample_lines(g[1][0], 1) + vf.sample_lines(g[3][0], 1)
+    fams, tags = {}, {}
+    with open(g[3][0]) as fh:
+        for line in fh:
+            c = json.loads(line)
+            f = fams.setdefault(c.get('fam'), {'cases': 0, 'dont_care': 0, 'nonempty': 0})
+            f['cases'] += 1
+            if c.get('dc'):
+                f['dont_care'] += 1
+            elif c.get('r') or c.get('tv'):
+                f['nonempty'] += 1
+            for d in c.get('dev') or []:
+                tags[d] = tags.get(d, 0) + 1
+    cov['functions_family'] = {'cases_by_family': fams, 'cases_tagged_with_suspected_defect_class': tags}
     rep.assumptions += [
         'results are compared as lists; as multisets when the spec reports that members of an object with two or more members were enumerated '
         '(wildcard, filter, recursive descent), because neither doc/ref/jsonpath nor RFC 9535 fixes that order; sort results always as lists',
@@ -142,7 +184,18 @@ def run(tier):
         'ordering comparisons of non-number non-string operands are false)',
         'not compared (declared dont-care, see notes/C12.md): length() of a non-container, <= / >= on equal booleans, arrays or objects, '
         'paths with ".." or "^" inside filters, absolute paths as union members, arrays of values in undetermined order',
-        'not generated: regular expressions, arithmetic, functions other than length, custom functions, numeric names on arrays, '
+        'functions family, not compared (declared dont-care, notes/C12.md "Functions family"): a type error in a function call or arithmetic '
+        'on a non-number inside a filter when the "no value = null" reading would select the node (decided: not selected when both readings '
+        'agree); division / modulus by zero; a non-integer quotient of two integers; remainders with a negative operand; % on non-integers; '
+        'results that depend on the last bit of a double (values not exactly representable that compare equal or cancel); the order of keys(); '
+        'tokenize with a pattern that is not a plain literal, an empty source or a trailing separator; to_number of " 1", "+1", "1e1"...; '
+        'a missing member as the search value of contains; the value (false or nothing) of an ordering comparison of incomparable operands '
+        'when it is compared again; the path reported for a function call used as the whole expression (values only)',
+        'functions family: cases in the suspected-defect classes same-level-operators-grouped-from-right, number-minus-nospace, '
+        'prod-of-empty-array, to_number-unparseable-gives-null are generated, predicted strictly and compared; a mismatch on a tagged case is '
+        'matched against known_findings.jsonl by {dev, what}',
+        'not generated: regular expressions (=~, and tokenize patterns other than plain literals are dont-care), custom functions, function '
+        'calls with a wrong number of arguments, JSON array / object literals as operands, expression selectors [(..)], numeric names on arrays, '
         '"length" as a selector, the empty name in dot notation, a bare "..", the parent operator before other segments, step 0',
         'excluded root causes of suspected defects (default): ' + ', '.join(sorted(k for k, v in inc.items() if not v))]
     return rep.finish(dict(harness='c12', harness_args=harness_args(inc)))
@@ -161,6 +214,10 @@ def replay(path):
         print('document=%s' % json.dumps(c.get('d'))[:1000])
         print('queries=%s' % json.dumps([text(e) for e in c.get('ex', [])]))
         print('predicted=%s' % json.dumps([[text(p), v] for p, v in c.get('r', [])])[:2000])
+        if c.get('vo'):
+            print('predicted values (function call as the whole expression)=%s' % json.dumps(c.get('tv'))[:2000])
+        if c.get('dev'):
+            print('suspected-defect classes of this case=%s' % ','.join(c['dev']))
     if bad:
         print('VIOLATION property=%s replay=%s' % (PROP, path))
         return 1
